@@ -12,6 +12,7 @@ from gv.astutil import flip_cmp
 from gv.astutil import kwarg
 from gv.astutil import last_attr
 from gv.astutil import names_in
+from gv.astutil import mangle
 from gv.astutil import norm_stmt
 from gv.astutil import stmts_of
 from gv.astutil import unparse
@@ -840,7 +841,41 @@ def check_parallel_stage_inputs(ctx: Ctx) -> None:
     c13.check_parallel_chain_inputs(_Prefixed(ctx, "8.7-stage-inputs/"))
 
 
+def check_sub_structures_pairing(ctx: Ctx) -> None:
+    """8.8: the inner MDAs of an MDA chain are created stage after stage, group after group, and each takes the NEXT of
+    the sub coupling structures the user gave in that order: the iterator they are taken from is created once, before
+    the stages are gone through (created again inside the loop, every stage starts again from the first structure and an
+    inner MDA resolves the couplings of another group)."""
+    cls = ctx.index.cls(MC, "MDAChain")
+    made = []
+    for mname, m in cls.methods.items():
+        for st in stmts_of(m):
+            if isinstance(st, ast.Assign) and isinstance(st.value, ast.Call) and dotted(st.value.func) == "iter" and len(st.targets) == 1 and (dotted(st.targets[0]) or "").startswith("self."):
+                made.append((mname, m, st))
+    ctx.need(len(made) >= 1, "MDAChain: the iterator over the sub coupling structures was not found")
+    for mname, m, st in made:
+        attr = st.targets[0].attr
+        loops = [lp for lp in stmts_of(m) if isinstance(lp, (ast.For, ast.While))]
+        inside = [lp for lp in loops if any(x is st for x in ast.walk(lp))]
+        # consumers: next(self.<attr>) here or in a method of the class called from here
+        def consumes(fn, seen=()):
+            for c in walk_body(fn):
+                if isinstance(c, ast.Call) and dotted(c.func) == "next" and c.args and isinstance(c.args[0], ast.Attribute) and c.args[0].attr.endswith(attr.lstrip("_")):
+                    return True
+                if isinstance(c, ast.Call) and isinstance(c.func, ast.Attribute) and dotted(c.func.value) == "self":
+                    callee = cls.methods.get(c.func.attr) or cls.methods.get(mangle(cls.name, c.func.attr))
+                    if callee is not None and callee is not fn and callee.name not in seen and consumes(callee, (*seen, getattr(fn, 'name', '?'))):
+                        return True
+            return False
+
+        cfg = cfg_of(m)
+        users = [lp for lp in loops if consumes(ast.Module(body=lp.body, type_ignores=[]))]
+        ok = not inside and bool(users) and all(cfg.dominates(cfg.node_of(st), cfg.node_of(lp)) for lp in users)
+        ctx.ob("8.8-sub-structures", cname(MC, "MDAChain", mname), ok, f"`{norm_stmt(st, 70)}` must run once, before the loop over the stages in which the inner MDAs take their structure with next(): " + ("it is inside a loop" if inside else "no consuming loop after it"), node=st, stmt="iterator over the sub coupling structures created once before the stages")
+
+
 def run(ctx: Ctx) -> None:
+    check_sub_structures_pairing(ctx)
     check_parallel_stage_inputs(ctx)
     check_orientation(ctx)
     check_initialization_order(ctx)
